@@ -2410,6 +2410,9 @@ func (s *Server) serveConnCounted(c net.Conn, countConcurrency bool) error {
 		connectionClose bool
 
 		continueReadingRequest = true
+
+		// A read deadline requested for a single request through HeaderReceived is in force.
+		requestReadDeadline bool
 	)
 	for {
 		connRequestNum++
@@ -2427,7 +2430,14 @@ func (s *Server) serveConnCounted(c net.Conn, countConcurrency bool) error {
 				if err = c.SetReadDeadline(time.Now().Add(d)); err != nil {
 					break
 				}
+			} else if requestReadDeadline {
+				// The previous request asked for its own read deadline through
+				// HeaderReceived. It must not apply to the next request.
+				if err = c.SetReadDeadline(zeroTime); err != nil {
+					break
+				}
 			}
+			requestReadDeadline = false
 		}
 
 		if !s.ReduceMemoryUsage || br != nil {
@@ -2515,6 +2525,7 @@ func (s *Server) serveConnCounted(c net.Conn, countConcurrency bool) error {
 						if err = c.SetReadDeadline(deadline); err != nil {
 							break
 						}
+						requestReadDeadline = true
 					}
 					switch {
 					case reqConf.MaxRequestBodySize > 0:
